@@ -377,4 +377,14 @@ def getMatch (E : Ext) (rs : Ruleset) (event : PJ) (ctx : Ctx) : Except Panic (O
   if selfSent ev ctx then .ok none
   else rs.iter.find (fun r => r.applies E ev ctx)
 
+/-- `Ruleset::get_actions`: `self.get_match(event, context).map(|rule| rule.actions()).unwrap_or(&[])`.
+`AnyPushRuleRef::actions` is the projection of the rule's `actions` field; it is the parameter
+`acts` here (no modelled function reads or changes actions). -/
+def getActions {α : Type} (acts : AnyRule → List α) (E : Ext) (rs : Ruleset) (event : PJ) (ctx : Ctx) :
+    Except Panic (List α) :=
+  match getMatch E rs event ctx with
+  | .error e => .error e
+  | .ok (some r) => .ok (acts r)
+  | .ok none => .ok []
+
 end Ruma.Push
